@@ -5,7 +5,7 @@
 From Coq Require Import List NArith ZArith Bool.
 Import ListNotations.
 Require Import Aurora.Base.Corr.
-Require Export Aurora.C30.Model.
+Require Export Aurora.C30.Model Aurora.C30.Conc.
 Local Open Scope N_scope.
 
 Definition SC (r b : N) (z : Z) (rc : option N) : signed :=
@@ -30,7 +30,13 @@ Inductive case :=
    (payout of LastReceivedCheque or None, Traffic record exists, transferChequeTraffic) *)
 | CSvc (self_ : addr) (h : list (op * N)) (dump : list (addr * (option Z * bool * Z)))
 (* store-only history; per cheque (class, returned amount or 0); final dump *)
-| CStore (self_ : addr) (h : list (signed * (N * Z))) (dump : list (addr * option Z)).
+| CStore (self_ : addr) (h : list (signed * (N * Z))) (dump : list (addr * option Z))
+(* concurrent deliveries through the service over a gated state store: sequential registrations [pre]; one list of
+   deliveries per goroutine; the order in which the gate granted the store's Get (false) / Put (true) of the
+   last-received-cheque entry, per goroutine index; observed class of every delivery per goroutine; then a
+   sequential tail [post] (replays) with observed classes; final dump as in CSvc *)
+| CConc (self_ : addr) (pre : list op) (progs : list (list delivery)) (events : list (nat * bool))
+        (obs : list (list N)) (post : list (op * N)) (dump : list (addr * (option Z * bool * Z))).
 
 Definition opt_last (st : store) (a : addr) : option Z := option_map (fun l => payout (chq l)) (get a st).
 
@@ -43,6 +49,71 @@ Definition svc_model (self_ : addr) (h : list op) (univ : list addr) :=
 Definition store_model (self_ : addr) (h : list signed) (univ : list addr) :=
   let '(rs, st') := store_run self_ [] h in
   (map (fun r => (class r, amount_of r)) rs, map (fun a => (a, opt_last st' a)) univ).
+
+(** ---- replay of an observed gate order in the micro-step model ([prog_head]) ---- *)
+Definition blocked_by (g : cstate) (th : thread) : option nat :=
+  match job th, rem th with
+  | Some _, ILockS :: _ => slock g
+  | Some _, ILockT :: _ => get (reg_a th) (tlocks g)
+  | _, _ => None
+  end.
+Definition instr_eqb (x y : instr) : bool :=
+  match x, y with
+  | IGuard, IGuard | ILockT, ILockT | IPre, IPre | ILockS, ILockS | ILoad, ILoad | ICmp, ICmp | IPut, IPut
+  | IUnlockS, IUnlockS | ICredit, ICredit | IUnlockT, IUnlockT => true
+  | _, _ => false
+  end.
+(** run until thread [i] has executed [target]; a thread in the way of a lock is advanced instead *)
+Fixpoint drive (fuel : nat) (g : cstate) (i : nat) (target : instr) : option cstate :=
+  match fuel with
+  | O => None
+  | S f =>
+      match nth_error (thr g) i with
+      | None => None
+      | Some th =>
+          match job th, rem th, todo th with
+          | None, _, [] => None
+          | Some _, ins :: _, _ =>
+              if instr_eqb ins target then Some (cstep prog_head g i)
+              else match blocked_by g th with
+                   | Some j => drive f (cstep prog_head g j) i target
+                   | None => drive f (cstep prog_head g i) i target
+                   end
+          | _, _, _ => drive f (cstep prog_head g i) i target
+          end
+      end
+  end.
+Fixpoint replay_events (g : cstate) (ev : list (nat * bool)) : option cstate :=
+  match ev with
+  | [] => Some g
+  | (i, is_put) :: t =>
+      match drive 200 g i (if is_put then IPut else ILoad) with
+      | Some g' => replay_events g' t
+      | None => None
+      end
+  end.
+(** round-robin until every thread is done *)
+Fixpoint drain (fuel : nat) (g : cstate) : cstate :=
+  match fuel with
+  | O => g
+  | S f => if finished g then g else drain f (fold_left (cstep prog_head) (seq 0 (length (thr g))) g)
+  end.
+
+Definition conc_model (self_ : addr) (pre : list op) (progs : list (list delivery)) (events : list (nat * bool))
+           (post : list op) (univ : list addr) :=
+  let s0 := snd (run (init self_) pre) in
+  match replay_events (boot s0 progs) events with
+  | None => None
+  | Some g =>
+      let g := drain 400 g in
+      if finished g then
+        let '(rs, s') := run (base g) post in
+        Some (map (fun th => map (fun x => class (snd x)) (rev (results th))) (thr g), map class rs,
+              map (fun a => (a, (opt_last (last_recv s') a,
+                                 match get a (credited s') with Some _ => true | None => false end,
+                                 credited_of s' a))) univ)
+      else None
+  end.
 
 Definition dump_eqb (a b : addr * (option Z * bool * Z)) : bool :=
   let '(x, (l, e, c)) := a in let '(x', (l', e', c')) := b in
@@ -57,6 +128,12 @@ Definition check_case (c : case) : bool :=
       let '(out, d) := store_model self_ (map fst h) (map fst dump) in
       list_eqb (pair_eqb N.eqb Z.eqb) out (map snd h)
       && list_eqb (pair_eqb N.eqb (option_eqb Z.eqb)) d dump
+  | CConc self_ pre progs events obs post dump =>
+      match conc_model self_ pre progs events (map fst post) (map fst dump) with
+      | None => false
+      | Some (cls, pcls, d) =>
+          list_eqb (list_eqb N.eqb) cls obs && list_eqb N.eqb pcls (map snd post) && list_eqb dump_eqb d dump
+      end
   end.
 
 (** model (classes, amounts, dump) next to the observed ones *)
@@ -69,4 +146,11 @@ Definition explain_case (c : case) :=
   | CStore self_ h dump =>
       let '(out, d) := store_model self_ (map fst h) (map fst dump) in
       (out, map (fun x => (fst x, (snd x, 0%Z))) d, map snd h, map (fun x => (fst x, (snd x, 0%Z))) dump)
+  | CConc self_ pre progs events obs post dump =>
+      match conc_model self_ pre progs events (map fst post) (map fst dump) with
+      | None => ([(999, 0%Z)], [], map (fun x => (x, 0%Z)) (concat obs), map (fun x => (fst x, (fst (fst (snd x)), snd (snd x)))) dump)
+      | Some (cls, pcls, d) =>
+          (map (fun x => (x, 0%Z)) (concat cls ++ pcls), map (fun x => (fst x, (fst (fst (snd x)), snd (snd x)))) d,
+           map (fun x => (x, 0%Z)) (concat obs ++ map snd post), map (fun x => (fst x, (fst (fst (snd x)), snd (snd x)))) dump)
+      end
   end.
